@@ -217,6 +217,70 @@ def shape_dyn_duration(rng, combo=None, openness=None):
     return sh
 
 
+# durative condition over every open/closed combination of its bounds x with/without delays x kind of the action whose
+# effect lands exactly on the upper bound
+HALF_COMBOS = [(lopen, ropen, delayed) for lopen in (False, True) for ropen in (False, True) for delayed in (False, True)]
+HALF_DROPPERS = ["instantaneous", "durative-start", "durative-end"]
+
+
+def shape_half_open(rng, combo=None, dropper=None, toggle=False):
+    """`hold` needs x over an interval whose bounds are closed or open in all four ways, either [start, end] or
+    [start + delta, end - delta].  An instantaneous `set` makes x true EXACTLY at the lower bound (open side: x was false
+    before, the effect may coincide with the bound; closed side: x is already true, the write is redundant but must stay
+    ordered with the bound).  `drop` makes x false EXACTLY at the upper bound (legal on both sides: conditions of an
+    instant are evaluated before its effects; on the closed side the write must not move before the bound), as an
+    instantaneous action or as the start / end effect of a durative one.  With `toggle` (closed lower bound only) x is
+    made false and then true again strictly BEFORE the lower bound, so the event at the closed lower bound must stay
+    after `set`.  If the event at a closed bound stops reading
+    x, the STN plan loses the ordering and the plan converted back lets `drop` (or `set`) move inside the interval."""
+    from unified_planning.model.timing import StartTiming, EndTiming
+    lopen, ropen, delayed = combo if combo is not None else rng.choice(HALF_COMBOS)
+    dropper = dropper if dropper is not None else rng.choice(HALF_DROPPERS)
+    sh = Shape("half-open")
+    x = sh.bool_fluent("x", not lopen)
+    done = sh.bool_fluent("done", False)
+    hold = sh.durative("hold")
+    d = F(4)
+    hold.set_fixed_duration(4)
+    delta = rng.choice([F(1, 2), F(1)]) if delayed else F(0)
+    lo = StartTiming(delta) if delayed else StartTiming()
+    hi = (EndTiming() - delta) if delayed else EndTiming()
+    hold.add_condition(interval(lo, hi, lopen, ropen), x)
+    hold.add_effect(EndTiming(), done, True)
+    toggle = toggle and not lopen
+    t0 = F(rng.choice([2, 3] if toggle else [1, 2, 3]))
+    L, U = t0 + delta, t0 + d - delta
+    setter = sh.instantaneous("set")
+    setter.add_effect(x, True)
+    if toggle:
+        unset = sh.instantaneous("unset")
+        unset.add_effect(x, False)
+        sh.step(L - 2, unset)
+        sh.step(L - 1, setter)
+    else:
+        sh.step(L, setter)
+    sh.step(t0, hold, d)
+    if dropper == "instantaneous":
+        drop = sh.instantaneous("drop")
+        drop.add_effect(x, False)
+        sh.step(U, drop)
+    else:
+        drop = sh.durative("drop")
+        drop.set_fixed_duration(1)
+        gone = sh.bool_fluent("gone", False)
+        if dropper == "durative-start":
+            drop.add_effect(StartTiming(), x, False)
+            drop.add_effect(EndTiming(), gone, True)
+            sh.step(U, drop, 1)
+        else:
+            drop.add_effect(EndTiming(), x, False)
+            drop.add_effect(StartTiming(), gone, True)
+            sh.step(U - 1, drop, 1)
+    sh.problem.add_goal(done)
+    sh.problem.add_goal(sh.em.Not(x))
+    return sh
+
+
 def shape_span(rng):
     """a condition that must hold over a whole interval (state invariant, durative condition, timed goal) and mentions
     TWO fluents, written inside the interval by events the deordering leaves unordered (open finding
